@@ -244,7 +244,7 @@ func registerAll() {
 
 func TestPropGraphs(t *testing.T) {
 	registerAll()
-	ev.Rapid(t, "graphs", ev.N(3000, 30000), genCase, judged)
+	ev.Rapid(t, "graphs", ev.N(8000, 30000), genCase, judged)
 }
 
 // exhaustive: all graphs over @main + 2 types, each with <= 2 properties, each property a plain /
